@@ -124,6 +124,9 @@ func (f *FlowMod) MarshalBinary() (data []byte, err error) {
 
 func (f *FlowMod) UnmarshalBinary(data []byte) error {
 	n := 0
+	if len(data) < 48 {
+		return errors.New("the []byte is too short to unmarshal a FlowMod header")
+	}
 	f.Header.UnmarshalBinary(data[n:])
 	n += int(f.Header.Len())
 
@@ -151,11 +154,16 @@ func (f *FlowMod) UnmarshalBinary(data []byte) error {
 	n += 2
 	n += 2 // for pad
 
-	f.Match.UnmarshalBinary(data[n:])
+	if err := f.Match.UnmarshalBinary(data[n:]); err != nil {
+		return err
+	}
 	n += int(f.Match.Len())
+	if int(f.Header.Length) > len(data) {
+		return errors.New("the flow-mod length exceeds the []byte")
+	}
 
 	for n < int(f.Header.Length) {
-		instr := DecodeInstr(data[n:])
+		instr := DecodeInstr(data[n:f.Header.Length])
 		if instr == nil {
 			return errors.New("failed to decode a flow-mod instruction")
 		}
@@ -257,6 +265,9 @@ func (f *FlowRemoved) MarshalBinary() (data []byte, err error) {
 func (f *FlowRemoved) UnmarshalBinary(data []byte) error {
 	next := 0
 	var err error
+	if len(data) < 48 {
+		return errors.New("the []byte is too short to unmarshal a FlowRemoved header")
+	}
 	err = f.Header.UnmarshalBinary(data[next:])
 	next += int(f.Header.Len())
 
@@ -282,6 +293,9 @@ func (f *FlowRemoved) UnmarshalBinary(data []byte) error {
 	next += 8
 
 	err = f.Match.UnmarshalBinary(data[next:])
+	if err != nil {
+		return err
+	}
 	next += int(f.Match.Len())
 
 	return err
